@@ -41,6 +41,8 @@ func checkC10(c *Ctx) {
 	c10NoErrorOverwrittenInLoop(c, "R10.8")
 	c.Rule("R10.7", "the reflection scratch buffer is emptied (or freshly taken) on every path before a value is encoded into it: what a failed encoding left behind never reaches a later value", 1)
 	c.Rule("R10.9", "a failing sink never makes the BufferedWriteSyncer forget what it holds: its bufio.Writer is never Reset (bytes already accepted and the error bufio keeps for the next caller would both vanish)", 2)
+	c.Rule("R10.10", "every element of a zap.Stringers array is converted by the panic-containing conversion, whose error the array reports", 1)
+	c10StringersContained(c, "R10.10")
 	c12SinkOwnership(c, "R10.9")
 	c10ScratchReset(c, "R10.7")
 
